@@ -133,7 +133,17 @@ func dumpGoroutines() []gor {
 	return out
 }
 
+// relevant goroutines: those running library code and the harness's own peers
+// (a reference sender that is merely waiting to be scheduled must not make the
+// library look stuck). The sampling goroutine itself is excluded.
 func relevant(g gor) bool {
+	if strings.Contains(g.body, "harness.WaitOrStuck") || strings.Contains(g.body, "harness.LeakedGoroutines") {
+		return false
+	}
+	return isLibrary(g) || strings.Contains(g.body, "verif/harness.") || strings.Contains(g.body, "verif/checks.")
+}
+
+func isLibrary(g gor) bool {
 	return strings.Contains(g.body, "github.com/tonistiigi/fsutil.") || strings.Contains(g.body, "github.com/tonistiigi/fsutil/")
 }
 
@@ -149,7 +159,7 @@ func blockedState(s string) bool {
 func quiescentFingerprint() (string, bool, string) {
 	gs := dumpGoroutines()
 	var sb, dump strings.Builder
-	n := 0
+	n, lib := 0, 0
 	for _, g := range gs {
 		if !relevant(g) {
 			continue
@@ -159,9 +169,12 @@ func quiescentFingerprint() (string, bool, string) {
 			return "", false, ""
 		}
 		sb.WriteString(g.id + "|" + g.state + "|" + g.body + "\n")
-		dump.WriteString("goroutine " + g.id + " [" + g.state + "]:\n" + g.body + "\n\n")
+		if isLibrary(g) {
+			lib++
+			dump.WriteString("goroutine " + g.id + " [" + g.state + "]:\n" + g.body + "\n\n")
+		}
 	}
-	if n == 0 {
+	if n == 0 || lib == 0 {
 		return "", false, ""
 	}
 	return sb.String(), true, dump.String()
@@ -185,7 +198,7 @@ func WaitOrStuck(done <-chan struct{}, pair *Pair) string {
 	select {
 	case <-done:
 		return ""
-	case <-time.After(1500 * time.Millisecond):
+	case <-time.After(400 * time.Millisecond):
 	}
 	last := ""
 	same := 0
@@ -202,7 +215,7 @@ func WaitOrStuck(done <-chan struct{}, pair *Pair) string {
 			} else {
 				last, same = fp, 1
 			}
-			if same >= 4 {
+			if same >= 5 {
 				select {
 				case <-done:
 					return ""
@@ -239,7 +252,7 @@ func LeakedGoroutines() string {
 		gs := dumpGoroutines()
 		var rel []gor
 		for _, g := range gs {
-			if relevant(g) && !strings.Contains(g.body, "harness.LeakedGoroutines") {
+			if isLibrary(g) && !strings.Contains(g.body, "harness.LeakedGoroutines") && !strings.Contains(g.body, "verif/checks.") && !strings.Contains(g.body, "harness.RunSync") && !strings.Contains(g.body, "harness.Run") {
 				rel = append(rel, g)
 			}
 		}
@@ -277,4 +290,39 @@ func LeakedGoroutines() string {
 			time.Sleep(40 * time.Millisecond)
 		}
 	}
+}
+
+// MutualSendDeadlock classifies a stuck dump: every blocked goroutine with an
+// fsutil frame is either inside Stream.SendMsg, waiting for the stream's send
+// mutex, or the top-level call waiting for those; nobody is in RecvMsg. That is
+// the signature of one specific root cause: after an error both ends have left
+// their receive loops while each still has senders blocked on a stream that
+// does not buffer.
+func MutualSendDeadlock(dump string) bool {
+	if dump == "" {
+		return false
+	}
+	sendS, sendR := false, false
+	for _, blk := range strings.Split(dump, "\n\n") {
+		blk = strings.TrimSpace(blk)
+		if blk == "" {
+			continue
+		}
+		switch {
+		case strings.Contains(blk, "harness.(*End).RecvMsg"):
+			return false
+		case strings.Contains(blk, "harness.(*End).SendMsg"):
+			if strings.Contains(blk, "fsutil.(*sender)") || strings.Contains(blk, "fsutil.(*fileSender)") {
+				sendS = true
+			}
+			if strings.Contains(blk, "fsutil.(*receiver)") {
+				sendR = true
+			}
+		case strings.Contains(blk, "sync.(*Mutex).Lock") && strings.Contains(blk, "fsutil.(*syncStream).SendMsg"):
+		case strings.Contains(blk, "errgroup.(*Group).Wait") && (strings.Contains(blk, "fsutil.(*sender).run") || strings.Contains(blk, "fsutil.(*receiver).run")):
+		default:
+			return false
+		}
+	}
+	return sendS && sendR
 }
